@@ -437,6 +437,12 @@ func H15a() {
 	msg := &TransactionPayloadQuery{ConversationID: vBytes(1), TransactionRef: hRefBytes(qref, shape)}
 	err := p.handleTransactionPayloadQuery(ctx, conn, &Envelope{Message: &Envelope_TransactionPayloadQuery{TransactionPayloadQuery: msg}})
 
+	// a reference field that is not 32 bytes is malformed (F-38: it used to be padded / truncated): refused, nothing sent
+	if len(msg.TransactionRef) != hash.SHA256HashSize {
+		vCover("malformed-reference-length")
+		vAssert(err != nil && len(conn.sent) == 0, "H15a.malformed_reference_rejected: payload query with a reference field that is not 32 bytes was answered")
+		return
+	}
 	// --- reference predicates (independent of the order in which the handler tries things) ---
 	found := !st.getFails && hash.FromSlice(msg.TransactionRef) == tx.ref
 	private := len(tx.pal) > 0
@@ -610,12 +616,21 @@ func H15b() {
 				input = append(input, t)
 			}
 		}
+		malformed := false
 		if vChoice(2) == 1 {
 			u := hHash(hb) // last byte 0: unknown
-			refs = append(refs, hRefBytes(u, vChoice(4)))
+			shape := vChoice(4)
+			malformed = shape != 3
+			refs = append(refs, hRefBytes(u, shape))
 		}
 		msg := &TransactionListQuery{ConversationID: vBytes(1), Refs: refs}
 		err = p.handleTransactionListQuery(ctx, conn, &Envelope{Message: &Envelope_TransactionListQuery{TransactionListQuery: msg}})
+		if malformed {
+			// a reference field that is not 32 bytes (F-38): the query is refused as a whole, nothing is sent
+			vCover("malformed-reference-length")
+			vAssert(err != nil && len(conn.sent) == 0, "H15b.malformed_reference_rejected: list query with a reference field that is not 32 bytes was answered")
+			return
+		}
 	case 2:
 		vCover("range-query")
 		start, end := uint32(vRange(0, 4)), uint32(vRange(0, 5))
@@ -735,10 +750,17 @@ func H15c() {
 	// reference
 	wireRef := hash.FromSlice(msg.TransactionRef)
 	var target *hTx
+	// a field denotes a transaction only if it is a reference, i.e. exactly 32 bytes (F-38: shorter and longer
+	// fields used to be padded / truncated onto a stored transaction)
+	wellFormed := len(msg.TransactionRef) == hash.SHA256HashSize
 	for _, t := range st.txs {
-		if t.ref == wireRef {
+		if t.ref == wireRef && wellFormed {
 			target = t
 		}
+	}
+	if !wellFormed {
+		vCover("malformed-reference-length")
+		vAssert(err != nil && len(st.writes) == 0, "H15c.malformed_reference_rejected: payload with a reference field that is not 32 bytes was not rejected")
 	}
 	vAssert(len(conn.sent) == 0, "H15c.no_answer: a received payload was answered with a message")
 	vAssert(len(st.writes) <= 1, "H15c.at_most_one_write: more than one payload written")
